@@ -136,8 +136,17 @@ def r2_forced_flags(ctx, cloexec_only=False):
             out.append(holds("C05.R2b", "syscalls::openat:syscalls::openat_follow", t.where(), "O_NOFOLLOW forced"))
         else:
             out.append(violated("C05.R2b", "syscalls::openat:syscalls::openat_follow", t.where(), "syscalls::openat does not force O_NOFOLLOW"))
+    # ... or the no-follow wrapper reaches the raw open itself: then all three forced bits must be set there
+    for t in b.calls("rustix::fs::openat"):
+        n += 1
+        v = bits.arg_value(t, 2)
+        need = O_NOFOLLOW | (O_CLOEXEC if cloexec_only else (O_CLOEXEC | O_NOCTTY))
+        if v is not None and v.has(need):
+            out.append(holds("C05.R2b", "syscalls::openat:syscalls::openat_follow", t.where(), "O_NOFOLLOW|O_CLOEXEC|O_NOCTTY forced at the raw open of the no-follow wrapper"))
+        else:
+            out.append(violated("C05.R2b", "syscalls::openat:syscalls::openat_follow", t.where(), "syscalls::openat does not force O_NOFOLLOW (must-set %s)" % (hex(v.must_set) if v else "?")))
     if n == 0:
-        out.append(violated("C05.R2b", "syscalls::openat:no-tail-call", b.where(), "syscalls::openat no longer calls openat_follow"))
+        out.append(violated("C05.R2b", "syscalls::openat:no-tail-call", b.where(), "syscalls::openat neither calls openat_follow nor the raw open"))
     # (c) who may call the following variant
     allowed = {"syscalls::openat", "procfs::ProcfsHandle::open_follow"}
     for cb in F.fn_bodies():
